@@ -326,7 +326,14 @@ def _register_from_arg():
                 ctx.prove("post.first_use_order", z3.BoolVal(got == (len(before) if constant_key(value) not in [constant_key(v) for v in before.values()] else [k for k, v in before.items() if constant_key(v) == constant_key(value)][0])))
             if kind == "fn-doc":
                 ctx.prove("post.docstring_stays_at_slot_0", z3.BoolVal(after[0] == "the doc" or override == 0))
-        harness("blocks.from_arg.constant_slot[%s,first=%d,%s,override=%s]" % (kind, first, ctype, override), props=["C03", "C05"],
+            # frame: the table changes by the entry of this constant only (and by the pinned None in the one docstring case)
+            expected = dict(before)
+            if is_fn_nodoc and not before and ctype == "str" and override is None:
+                expected[0] = None
+            expected.setdefault(got, value)
+            ctx.prove("frame.no_other_table_entry_is_written(C01: an override names the slot, nothing is pinned beside it)",
+                      z3.BoolVal(set(after) == set(expected) and all(constant_key(after[k]) == constant_key(expected[k]) for k in expected)), detail="%r -> %r" % (before, dict(after)))
+        harness("blocks.from_arg.constant_slot[%s,first=%d,%s,override=%s]" % (kind, first, ctype, override), props=["C03", "C05", "C01"],
                 functions=["code_data._blocks.from_arg", "code_data._blocks.FromArgs.add"], configs="any",
                 notes="complete finite case analysis (code kind x first constant? x constant type x override): the operand resolves to the given constant; a function without "
                       "docstring whose first constant is a string gets None pinned at slot 0")(h)
@@ -473,8 +480,6 @@ def h_to_tuple(ctx, cfg):
         slots = [ctx.input("slot%d" % i, SymInt.fresh("slot%d_%d" % (n, i))) for i in range(n)]
         for a, b in itertools.combinations(slots, 2):
             ctx.assume(a.z != b.z, "pre: distinct slots")
-        for s in slots:
-            ctx.assume(s.z >= 0, "pre: slots are non-negative")
         m = SlotMap()
         for i, s in enumerate(slots):
             m.entries.append((s, "value%d" % i))
@@ -496,7 +501,7 @@ def h_to_tuple(ctx, cfg):
 # --------------------------------------------------------------------------------------------------
 # C14: CodeData.__iter__ / all_code_data
 
-@harness("iter.nested_code_enumeration[bounded shapes]", props=["C14"], functions=["code_data.CodeData.__iter__", "code_data.CodeData.all_code_data"], configs="any", engine="E2",
+@harness("iter.nested_code_enumeration[bounded shapes]", props=["C14"], functions=["code_data.CodeData.__iter__", "code_data.CodeData.all_code_data"], configs="all", engine="E2",
          notes="bounded: every arrangement of {no arg, name, int constant, nested code} over <= 2 blocks x <= 2 instructions and <= 2 additional args, nesting depth <= 3: "
                "iteration yields exactly the nested CodeData among operands and additional args, all_code_data yields self first and then every descendant")
 def h_iter(ctx, cfg):
@@ -591,7 +596,7 @@ def _register_iter_generic():
                 got = list(cd)
                 want = [child] if kind == "Constant(CodeData)" else []
                 ctx.prove("iter.generic_element_yields_iff_it_is_a_nested_code_constant", z3.BoolVal(len(got) == len(want) and all(a is b for a, b in zip(got, want))), detail="%s %s -> %r" % (where, kind, got))
-            harness("iter.generic_element[%s,%s]" % (where, kind), props=["C14"], functions=["code_data.CodeData.__iter__"], configs="any",
+            harness("iter.generic_element[%s,%s]" % (where, kind), props=["C14"], functions=["code_data.CodeData.__iter__"], configs="all",
                     assumes=["rule 6 (generic-element rule): __iter__ is a yield-only traversal of blocks x instructions and of the additional args (checked syntactically)"],
                     notes="a generic element of every operand kind at a generic position: it is yielded iff it is a Constant holding a CodeData - so iteration yields exactly the nested code "
                           "objects among all operands and additional arguments, for any number of blocks and instructions")(h)
@@ -622,7 +627,7 @@ def _register_iter_generic():
         ctx.prove("all_code_data.self_first", z3.BoolVal(bool(got) and got[0] is p))
         ctx.prove("all_code_data.then_the_subtree_of_every_child_in_order(equal code objects under different parents are all yielded)",
                   z3.BoolVal(got[1:] == [("subtree", 1), grand(), ("subtree", 2), grand(), ("subtree", 3), grand()] and log == [1, 2, 3]), detail=repr(got[1:])[:300])
-    harness("iter.all_code_data.inductive_step", props=["C14"], functions=["code_data.CodeData.all_code_data"], configs="any",
+    harness("iter.all_code_data.inductive_step", props=["C14"], functions=["code_data.CodeData.all_code_data"], configs="all",
             assumes=["meta-step: structural induction over the nesting depth (the recursive call on a child is the hypothesis)"],
             notes="modular recursion: all_code_data yields the object itself first and then, for every child that iteration yields, that child's whole subtree")(h_all)
 
